@@ -76,7 +76,10 @@ where
 }
 
 pub fn parse_response<B>(reader: BaseStream, request: &PreparedRequest<B>, url: &Url) -> Result<Response> {
+    #[cfg(not(kani))]
     let mut reader = BufReader::new(reader);
+    #[cfg(kani)]
+    let mut reader = BufReader::with_capacity(crate::verif::HEAD_BUF_CAP, reader);
     let (status, mut headers) = parse_response_head(&mut reader, request.base_settings.max_headers)?;
     let body_reader = BodyReader::new(&headers, reader)?;
     let compressed_reader = CompressedReader::new(&headers, request, body_reader)?;
